@@ -4,9 +4,9 @@
    call.  That the interior of each of the 84 numeric kernels raises no Python error on every valid task is NOT provable
    here (no Gallina model of numpy's dynamic typing / broadcasting); it is covered by the keyed failure census (search). *)
 From Coq Require Import List ZArith Bool Arith.
-From PV Require Import Xnum Select PyLib Argsort Vars Vars_proofs Task_proofs Init Init_proofs Loop Loop_proofs Entry.
+From PV Require Import Xnum Select Select_proofs PyLib Argsort Vars Vars_proofs Task_proofs Init Init_proofs Loop Loop_proofs Entry.
 From PVGen Require Import GenVars GenInit GenStop GenSchema.
-From PVBridge Require Import LoopBridge InitBridge C04Main C13Main EntryBridge.
+From PVBridge Require Import LoopBridge InitBridge C04Main C13Main EntryBridge ProvExample EntryExample C04Example.
 
 (* --- invalid calls: no configuration, non-positive workers, unknown mode -> ValueError with ZERO optimization steps,
    for every optimizer (hidden state, hooks, step), every instance history, on the REGENERATED schema of optimize() *)
@@ -98,3 +98,23 @@ Print Assumptions C06_inverted_bounds_rejected.
 Print Assumptions C06_inverted_multi_bounds_rejected.
 Print Assumptions C06_init_agent_total.
 Print Assumptions C06_valid_call_returns_complete_result.
+
+(* non-vacuity: a mixed task, a scalar objective and an out-of-range candidate containing +inf meet EVERY hypothesis of C06_init_agent_total, and the REGENERATED
+   _init_agent evaluates to `Some` on them; with two weights for the scalar objective the premise of C06_weight_count_mismatch_rejected holds and it evaluates to `None`;
+   the hypotheses of C06_valid_call_returns_complete_result are those witnessed for C03 / C04 *)
+Theorem C06_hypotheses_satisfiable :
+  valid_task ex_task /\ valid_flat ex_task /\ shape_ok_all ex_task (candidate en_raw nil) /\
+  (forall x, n_weights unit None = objv_count (ex_obj x)) /\
+  (forall x, @None (list unit) = None -> exists c, ex_obj x = OScalar c) /\
+  is_some (gen_init_agent unit ex_dot unit ex_fit ex_obj ex_task MAX None en_raw nil) = true /\
+  (forall x, n_weights unit (Some (tt :: tt :: nil)) <> objv_count (ex_obj x)) /\
+  is_some (gen_init_agent unit ex_dot unit ex_fit ex_obj ex_task MAX (Some (tt :: tt :: nil)) en_raw nil) = false.
+Proof. exact entry_hypotheses_satisfiable. Qed.
+Theorem C06_valid_call_hypotheses_satisfiable :
+  i_config _ _ _ ex_inst = Some ex_cfg /\ valid_args ex_args /\ 1 <= max_cycles ex_cfg /\
+  entry_state exA Z unit ex_before ex_init ex_after ex_inst = (tt, ex_p0, ex_p0) /\
+  populated exA Z Z.sub Z.abs Z.ltb Z.leb 0%Z 1%Z ex_avg unit ex_step ex_cfg tt ex_p0 ex_p0 /\
+  (forall k, costs_ok exA ex_cost (pop_at exA unit ex_step tt ex_p0 k)).
+Proof. exact hypotheses_satisfiable. Qed.
+Print Assumptions C06_hypotheses_satisfiable.
+Print Assumptions C06_valid_call_hypotheses_satisfiable.
